@@ -73,7 +73,10 @@ impl TraceSlider {
 
     pub(crate) fn set_position_and_len(&mut self, position: TracePos, subtrace_len: TraceLen) -> KeeperResult<()> {
         // it's possible to set empty subtrace_len and inconsistent position
-        if subtrace_len != 0 && position + subtrace_len > self.trace.trace_states_count().into() {
+        // position and subtrace_len come from data and their sum could overflow
+        let subtrace_end = u32::from(position).checked_add(subtrace_len);
+        let fits_trace = matches!(subtrace_end, Some(end) if end <= self.trace.trace_states_count());
+        if subtrace_len != 0 && !fits_trace {
             return Err(SetSubtraceLenAndPosFailed {
                 requested_pos: position,
                 requested_subtrace_len: subtrace_len,
